@@ -269,5 +269,23 @@ def run(repo, tier):
     for name in sorted(tmpl)[:6]:
         p, a, insts, row = tmpl[name][0]
         rep.sample({'pseudo': name, 'operands': a, 'expansion': [(b, {k: str(v) for k, v in s.items()}) for c, b, s, n, raw in insts]})
+    # R5.6: with -c the expansion is compressed afterwards: every compression rule that can fire on a base instruction an
+    # expansion produces must keep its meaning (li sp, 16 -> addi sp, x0, 16 must not become c.addi16sp = sp += 16)
+    from ..comprel import CompRel
+    from .c04 import check_rules
+    bases = set()
+    for name, variants in tmpl.items():
+        for path, arity, insts, row in variants:
+            for cls, got_base, srcs, node, raw in insts:
+                if got_base:
+                    bases.add(got_base)
+    rep.count('base mnemonics produced by expansions', len(bases))
+    try:
+        check_rules(rep, facts, CompRel(facts), 'R5.6.compressed-expansion', 'R5.6.compressed-accepted', tier, only_names=bases)
+    except AnalysisError as e:
+        if not rep.findings:
+            raise
+        rep.note('R5.6 not decided ({})'.format(str(e)[:160]))
     rep.floor('pseudo-instructions with a template', 27)
+    rep.floor('base mnemonics produced by expansions', 5)
     return rep
